@@ -86,7 +86,7 @@ func (s *c01state) see(kind string, body interface{}, meta func(string) []byte, 
 		}
 	}()
 	tag, pad := s.bk.get(body)
-	mt := string(meta("tag"))
+	mt := string(meta(c01TagKey))
 	if mt != tag {
 		vsched.Failf("%s handler (%s) got body tag %q but metadata tag %q: bytes of another message are visible", kind, s.who, tag, mt)
 	}
@@ -95,7 +95,7 @@ func (s *c01state) see(kind string, body interface{}, meta func(string) []byte, 
 	}
 	vsched.Yield()
 	tag2, pad2 := s.bk.get(body)
-	mt2 := string(meta("tag"))
+	mt2 := string(meta(c01TagKey))
 	if tag2 != tag || pad2 != pad || mt2 != mt {
 		vsched.Failf("%s handler (%s) input changed while the handler was running: (%q,%q,%q) -> (%q,%q,%q)", kind, s.who, tag, pad, mt, tag2, pad2, mt2)
 	}
@@ -117,7 +117,7 @@ func (s *c01state) register(p erpc.Peer) (call, push string) {
 		call = p.RouteCallFunc(func(ctx erpc.CallCtx, arg *Msg) (*Msg, *erpc.Status) {
 			t, pd := s.see("call", arg, ctx.PeekMeta, ctx.ServiceMethod)
 			s.handled = append(s.handled, t)
-			ctx.SetMeta("tag", t)
+			ctx.SetMeta(c01TagKey, t)
 			return &Msg{Tag: t, Pad: "r:" + pd}, nil
 		})
 		push = p.RoutePushFunc(func(ctx erpc.PushCtx, arg *Msg) *erpc.Status {
@@ -129,7 +129,7 @@ func (s *c01state) register(p erpc.Peer) (call, push string) {
 		call = p.RouteCallFunc(func(ctx erpc.CallCtx, arg *string) (*string, *erpc.Status) {
 			t, pd := s.see("call", arg, ctx.PeekMeta, ctx.ServiceMethod)
 			s.handled = append(s.handled, t)
-			ctx.SetMeta("tag", t)
+			ctx.SetMeta(c01TagKey, t)
 			r := t + "|r:" + pd
 			return &r, nil
 		})
@@ -142,7 +142,7 @@ func (s *c01state) register(p erpc.Peer) (call, push string) {
 		call = p.RouteCallFunc(func(ctx erpc.CallCtx, arg *NStr) (*NStr, *erpc.Status) {
 			t, pd := s.see("call", arg, ctx.PeekMeta, ctx.ServiceMethod)
 			s.handled = append(s.handled, t)
-			ctx.SetMeta("tag", t)
+			ctx.SetMeta(c01TagKey, t)
 			r := NStr(t + "|r:" + pd)
 			return &r, nil
 		})
@@ -155,7 +155,7 @@ func (s *c01state) register(p erpc.Peer) (call, push string) {
 		call = p.RouteCallFunc(func(ctx erpc.CallCtx, arg *secure.Encrypt) (*secure.Encrypt, *erpc.Status) {
 			t, pd := s.see("call", arg, ctx.PeekMeta, ctx.ServiceMethod)
 			s.handled = append(s.handled, t)
-			ctx.SetMeta("tag", t)
+			ctx.SetMeta(c01TagKey, t)
 			return &secure.Encrypt{Cipherversion: t, Ciphertext: "r:" + pd}, nil
 		})
 		push = p.RoutePushFunc(func(ctx erpc.PushCtx, arg *secure.Encrypt) *erpc.Status {
@@ -180,8 +180,15 @@ func pipeSetting(pipe string) erpc.MessageSetting {
 //
 //	shape=S1: `k` client threads on one session; S2: + one server-side thread calling the client; S3: two sessions.
 //	ops per thread: op=call | callpush | async
+//
+// c01TagKey is the metadata key that carries the tag (an HTTP header field name for the HTTP-style protocol).
+var c01TagKey = "tag"
+
 func c01(p Params) func() {
 	proto := p.Get("proto", "raw")
+	if proto == "http" {
+		c01TagKey = "X-Tag"
+	}
 	body := p.Get("body", "json")
 	pipe := p.Get("pipe", "none")
 	shape := p.Get("shape", "S1")
@@ -207,7 +214,7 @@ func c01(p Params) func() {
 		var ths []*vsched.Thread
 		doCall := func(sess erpc.Session, method, tag string, async bool) {
 			res := bk.newRes()
-			settings := []erpc.MessageSetting{erpc.WithAddMeta("tag", tag)}
+			settings := []erpc.MessageSetting{erpc.WithAddMeta(c01TagKey, tag)}
 			if ps := pipeSetting(pipe); ps != nil {
 				settings = append(settings, ps)
 			}
@@ -226,7 +233,7 @@ func c01(p Params) func() {
 			if rt != tag || rp != "r:"+padFor(tag) {
 				vsched.Failf("call %s got the result (%q,%q): not the reply to its own arguments", tag, rt, rp)
 			}
-			if mt := string(cmd.InputMeta().Peek("tag")); mt != tag {
+			if mt := string(cmd.InputMeta().Peek(c01TagKey)); mt != tag {
 				vsched.Failf("call %s got reply metadata tag %q", tag, mt)
 			}
 		}
@@ -251,7 +258,7 @@ func c01(p Params) func() {
 				ths = append(ths, world.Go(fmt.Sprintf("caller%d.%d", si, i), func() {
 					doCall(sess, sCall, tag, op == "async")
 					if op == "callpush" {
-						settings := []erpc.MessageSetting{erpc.WithAddMeta("tag", ptag)}
+						settings := []erpc.MessageSetting{erpc.WithAddMeta(c01TagKey, ptag)}
 						if ps := pipeSetting(pipe); ps != nil {
 							settings = append(settings, ps)
 						}
@@ -276,7 +283,7 @@ func c01(p Params) func() {
 				tag := fmt.Sprintf("c%d", i+1)
 				sentCalls = append(sentCalls, tag)
 				res := bk.newRes()
-				settings := []erpc.MessageSetting{erpc.WithAddMeta("tag", tag)}
+				settings := []erpc.MessageSetting{erpc.WithAddMeta(c01TagKey, tag)}
 				if ps := pipeSetting(pipe); ps != nil {
 					settings = append(settings, ps)
 				}
@@ -292,7 +299,7 @@ func c01(p Params) func() {
 				if rt != kp.tag || rp != "r:"+padFor(kp.tag) {
 					vsched.Failf("after later calls completed, call %s holds the result (%q,%q): not the reply to its own arguments", kp.tag, rt, rp)
 				}
-				if mt := string(kp.cmd.InputMeta().Peek("tag")); mt != kp.tag {
+				if mt := string(kp.cmd.InputMeta().Peek(c01TagKey)); mt != kp.tag {
 					vsched.Failf("after later calls completed, the reply metadata of call %s reads tag %q", kp.tag, mt)
 				}
 			}
